@@ -21,13 +21,13 @@ CONSTANTS R,          \* capacity of the frame ring (16384 in production, scaled
 VARIABLES ring,       \* indices in the frame ring; -1 is the pre-seeded "previous" frame
           dpos, chunkLo, chunkHi, calls,
           reachedEnd, encErr, errRing,
-          sstate, stopc, loaded, consumer,   \* sound state, pending stop, in the track, frame consumer alive
+          sstate, stopc, pausec, loaded, consumer,   \* sound state, pending stop / pause, in the track, frame consumer alive
           dpc,        \* decoder thread: "none" | "top" | "wait" | "err" | "end" | "pushed" | "errpushed" | "exited"
           apc, aleft, aout, astate0,         \* callback in progress (fine mode)
           popped, cb, lock,
           act, ev, mon, bad
 
-ivars == <<ring, dpos, chunkLo, chunkHi, calls, reachedEnd, encErr, errRing, sstate, stopc, loaded, consumer,
+ivars == <<ring, dpos, chunkLo, chunkHi, calls, reachedEnd, encErr, errRing, sstate, stopc, pausec, loaded, consumer,
            dpc, apc, aleft, aout, astate0, popped, cb, lock>>
 vars == <<ivars, act, ev, mon, bad>>
 
@@ -36,7 +36,7 @@ Prod == dpos            \* frames pushed so far = transport position (start 0, r
 Init ==
   /\ ring = <<-1>> /\ dpos = 0 /\ chunkLo = 0 /\ chunkHi = 0 /\ calls = 0
   /\ reachedEnd = FALSE /\ encErr = FALSE /\ errRing = <<>>
-  /\ sstate = "Playing" /\ stopc = FALSE /\ loaded = FALSE /\ consumer = FALSE
+  /\ sstate = "Playing" /\ stopc = FALSE /\ pausec = FALSE /\ loaded = FALSE /\ consumer = FALSE
   /\ dpc = "none" /\ apc = "idle" /\ aleft = 0 /\ aout = <<>> /\ astate0 = "Playing"
   /\ popped = 0 /\ cb = 0 /\ lock = "none"
   /\ act = <<"Init">> /\ ev = [a |-> "tau"] /\ mon = PInit(R, Len0, FailAt) /\ bad = ""
@@ -52,36 +52,42 @@ Play(rejected) ==
           /\ UNCHANGED <<loaded, consumer>>
      ELSE /\ ev' = [a |-> "play", ok |-> TRUE] /\ dpc' = "start"
           /\ loaded' = ~rejected /\ consumer' = ~rejected
-  /\ UNCHANGED <<ring, dpos, chunkLo, chunkHi, reachedEnd, encErr, errRing, sstate, stopc, apc, aleft, aout, astate0, popped, cb, lock>>
+  /\ UNCHANGED <<ring, dpos, chunkLo, chunkHi, reachedEnd, encErr, errRing, sstate, stopc, pausec, apc, aleft, aout, astate0, popped, cb, lock>>
 
 Reject == \* reported right after a play that was refused
   /\ dpc = "start" /\ ~consumer /\ lock = "none"
   /\ dpc' = "start2" /\ act' = <<"Reject">> /\ ev' = [a |-> "reject"]
-  /\ UNCHANGED <<ring, dpos, chunkLo, chunkHi, calls, reachedEnd, encErr, errRing, sstate, stopc, loaded, consumer, apc, aleft, aout, astate0, popped, cb, lock>>
+  /\ UNCHANGED <<ring, dpos, chunkLo, chunkHi, calls, reachedEnd, encErr, errRing, sstate, stopc, pausec, loaded, consumer, apc, aleft, aout, astate0, popped, cb, lock>>
 
 Stop ==
   /\ loaded /\ ~stopc /\ sstate = "Playing" /\ lock = "none" /\ apc = "idle"
-  /\ stopc' = TRUE /\ act' = <<"Stop">> /\ ev' = [a |-> "stop"]
+  /\ stopc' = TRUE /\ act' = <<"Stop">> /\ ev' = [a |-> "stop"] /\ UNCHANGED pausec
   /\ UNCHANGED <<ring, dpos, chunkLo, chunkHi, calls, reachedEnd, encErr, errRing, sstate, loaded, consumer, dpc, apc, aleft, aout, astate0, popped, cb, lock>>
+
+\* pause with a zero-length fade (takes effect at the next callback; the sound then stays paused)
+Pause ==
+  /\ loaded /\ ~pausec /\ sstate = "Playing" /\ lock = "none" /\ apc = "idle"
+  /\ pausec' = TRUE /\ act' = <<"Pause">> /\ ev' = [a |-> "pause"]
+  /\ UNCHANGED <<ring, dpos, chunkLo, chunkHi, calls, reachedEnd, encErr, errRing, sstate, stopc, loaded, consumer, dpc, apc, aleft, aout, astate0, popped, cb, lock>>
 
 \* the manager (and with it the renderer and the sound) is dropped
 Discard ==
   /\ consumer /\ lock = "none" /\ apc = "idle" /\ dpc \notin {"none", "start"}
   /\ consumer' = FALSE /\ loaded' = FALSE /\ act' = <<"Discard">> /\ ev' = [a |-> "discard"]
-  /\ UNCHANGED <<ring, dpos, chunkLo, chunkHi, calls, reachedEnd, encErr, errRing, sstate, stopc, dpc, apc, aleft, aout, astate0, popped, cb, lock>>
+  /\ UNCHANGED <<ring, dpos, chunkLo, chunkHi, calls, reachedEnd, encErr, errRing, sstate, stopc, pausec, dpc, apc, aleft, aout, astate0, popped, cb, lock>>
 
 Pop ==
   /\ popped < 2 /\ lock = "none" /\ dpc # "none"
   /\ popped' = popped + 1 /\ act' = <<"Pop">>
   /\ IF errRing = <<>> THEN ev' = [a |-> "pop", msg |-> 0] /\ UNCHANGED errRing
      ELSE ev' = [a |-> "pop", msg |-> Head(errRing)] /\ errRing' = Tail(errRing)
-  /\ UNCHANGED <<ring, dpos, chunkLo, chunkHi, calls, reachedEnd, encErr, sstate, stopc, loaded, consumer, dpc, apc, aleft, aout, astate0, cb, lock>>
+  /\ UNCHANGED <<ring, dpos, chunkLo, chunkHi, calls, reachedEnd, encErr, sstate, stopc, pausec, loaded, consumer, dpc, apc, aleft, aout, astate0, cb, lock>>
 
 \* ---------------------------------------------------------------- decoder thread
 DStart == \* the new thread reaches its first dec.top
   /\ dpc \in {"start", "start2"} /\ (consumer \/ dpc = "start2") /\ lock = "none"
   /\ dpc' = "top" /\ act' = <<"DStep">> /\ ev' = [a |-> "dec", site |-> "top", prod |-> Prod]
-  /\ UNCHANGED <<ring, dpos, chunkLo, chunkHi, calls, reachedEnd, encErr, errRing, sstate, stopc, loaded, consumer, apc, aleft, aout, astate0, popped, cb, lock>>
+  /\ UNCHANGED <<ring, dpos, chunkLo, chunkHi, calls, reachedEnd, encErr, errRing, sstate, stopc, pausec, loaded, consumer, apc, aleft, aout, astate0, popped, cb, lock>>
 
 \* frame_at_index(dpos): number of decode calls needed and whether one of them fails
 \* (an index at or past the end of the audio is answered with silence without touching the decoder)
@@ -114,24 +120,24 @@ DBody ==
              THEN IF Replayable THEN reachedEnd' = TRUE /\ dpc' = "end" /\ ev' = [a |-> "dec", site |-> "end", prod |-> Prod + 1] /\ UNCHANGED lock
                   ELSE UNCHANGED reachedEnd /\ dpc' = "pushed" /\ ev' = [a |-> "tau"] /\ UNCHANGED lock
              ELSE /\ UNCHANGED <<reachedEnd, lock>> /\ dpc' = "top" /\ ev' = [a |-> "dec", site |-> "top", prod |-> Prod + 1]
-  /\ UNCHANGED <<sstate, stopc, loaded, consumer, apc, aleft, aout, astate0, popped, cb>>
+  /\ UNCHANGED <<sstate, stopc, pausec, loaded, consumer, apc, aleft, aout, astate0, popped, cb>>
 
 \* fine mode: the flag store that follows the last push / the error push
 DFlag ==
   /\ dpc \in {"pushed", "errpushed"} /\ act' = <<"DStep">>
   /\ IF dpc = "pushed" THEN reachedEnd' = TRUE /\ dpc' = "end" /\ ev' = [a |-> "dec", site |-> "end", prod |-> Prod] /\ UNCHANGED encErr
      ELSE encErr' = TRUE /\ dpc' = "err" /\ ev' = [a |-> "dec", site |-> "err", prod |-> Prod] /\ UNCHANGED reachedEnd
-  /\ UNCHANGED <<ring, dpos, chunkLo, chunkHi, calls, errRing, sstate, stopc, loaded, consumer, apc, aleft, aout, astate0, popped, cb, lock>>
+  /\ UNCHANGED <<ring, dpos, chunkLo, chunkHi, calls, errRing, sstate, stopc, pausec, loaded, consumer, apc, aleft, aout, astate0, popped, cb, lock>>
 
 DSleep == \* dec.wait -> sleep -> dec.top
   /\ dpc = "wait" /\ lock = "none"
   /\ dpc' = "top" /\ act' = <<"DStep">> /\ ev' = [a |-> "dec", site |-> "top", prod |-> Prod]
-  /\ UNCHANGED <<ring, dpos, chunkLo, chunkHi, calls, reachedEnd, encErr, errRing, sstate, stopc, loaded, consumer, apc, aleft, aout, astate0, popped, cb, lock>>
+  /\ UNCHANGED <<ring, dpos, chunkLo, chunkHi, calls, reachedEnd, encErr, errRing, sstate, stopc, pausec, loaded, consumer, apc, aleft, aout, astate0, popped, cb, lock>>
 
 DExit == \* dec.err / dec.end.* -> the loop is left, the decoder is dropped
   /\ dpc \in {"err", "end"} /\ lock = "none"
   /\ dpc' = "exited" /\ act' = <<"DStep">> /\ ev' = [a |-> "exit"]
-  /\ UNCHANGED <<ring, dpos, chunkLo, chunkHi, calls, reachedEnd, encErr, errRing, sstate, stopc, loaded, consumer, apc, aleft, aout, astate0, popped, cb, lock>>
+  /\ UNCHANGED <<ring, dpos, chunkLo, chunkHi, calls, reachedEnd, encErr, errRing, sstate, stopc, pausec, loaded, consumer, apc, aleft, aout, astate0, popped, cb, lock>>
 
 \* ---------------------------------------------------------------- audio thread
 \* one output frame of StreamingSound::process at rate 1
@@ -156,14 +162,16 @@ CallbackAtomic ==
   /\ cb' = cb + 1 /\ act' = <<"Callback">>
   /\ IF ~loaded
      THEN /\ ev' = CbEvent(sstate, Silent, 0)
-          /\ UNCHANGED <<ring, sstate, stopc, loaded>>
+          /\ UNCHANGED <<ring, sstate, stopc, pausec, loaded>>
      ELSE IF sstate = "Stopped"
      THEN /\ loaded' = FALSE /\ ev' = CbEvent(sstate, Silent, 0)       \* removed by its track before processing
-          /\ UNCHANGED <<ring, sstate, stopc>>
-     ELSE LET st0 == IF stopc THEN "Stopping" ELSE sstate IN         \* read_commands
-          /\ stopc' = FALSE /\ UNCHANGED loaded
+          /\ UNCHANGED <<ring, sstate, stopc, pausec>>
+     ELSE LET st0 == IF stopc THEN "Stopping" ELSE IF pausec THEN "Paused" ELSE sstate IN         \* read_commands
+          /\ stopc' = FALSE /\ pausec' = FALSE /\ UNCHANGED loaded
+          \* (the error flag is looked at first: a paused sound whose decoder failed is stopped all the same)
           /\ IF encErr THEN sstate' = "Stopped" /\ ev' = CbEvent("Stopped", Silent, 1) /\ UNCHANGED ring
              ELSE IF st0 = "Stopping" THEN sstate' = "Stopped" /\ ev' = CbEvent("Stopped", Silent, 1) /\ UNCHANGED ring
+             ELSE IF st0 = "Paused" THEN sstate' = "Paused" /\ ev' = CbEvent("Paused", Silent, 1) /\ UNCHANGED ring
              ELSE IF Len(ring) < 2 /\ ~reachedEnd THEN sstate' = st0 /\ ev' = CbEvent(st0, Silent, 1) /\ UNCHANGED ring
              ELSE LET f == Frames(ring, st0, NF, <<>>) IN
                   ring' = f[1] /\ sstate' = f[2] /\ ev' = CbEvent(f[2], f[3], 1)
@@ -173,11 +181,12 @@ CallbackAtomic ==
 AStart ==
   /\ ~Replayable /\ cb < MaxCb /\ dpc \notin {"none", "start"} /\ apc = "idle"
   /\ act' = <<"Callback">> /\ ev' = [a |-> "tau"]
-  /\ IF ~loaded THEN apc' = "done" /\ aout' = Silent /\ UNCHANGED <<sstate, stopc, loaded, aleft>> /\ astate0' = "unloaded"
-     ELSE IF sstate = "Stopped" THEN loaded' = FALSE /\ apc' = "done" /\ aout' = Silent /\ astate0' = "unloaded" /\ UNCHANGED <<sstate, stopc, aleft>>
-     ELSE LET st0 == IF stopc THEN "Stopping" ELSE sstate IN
-          /\ stopc' = FALSE /\ UNCHANGED loaded /\ astate0' = "loaded"
+  /\ IF ~loaded THEN apc' = "done" /\ aout' = Silent /\ UNCHANGED <<sstate, stopc, pausec, loaded, aleft>> /\ astate0' = "unloaded"
+     ELSE IF sstate = "Stopped" THEN loaded' = FALSE /\ apc' = "done" /\ aout' = Silent /\ astate0' = "unloaded" /\ UNCHANGED <<sstate, stopc, pausec, aleft>>
+     ELSE LET st0 == IF stopc THEN "Stopping" ELSE IF pausec THEN "Paused" ELSE sstate IN
+          /\ stopc' = FALSE /\ pausec' = FALSE /\ UNCHANGED loaded /\ astate0' = "loaded"
           /\ IF encErr \/ st0 = "Stopping" THEN sstate' = "Stopped" /\ apc' = "done" /\ aout' = Silent /\ UNCHANGED aleft
+             ELSE IF st0 = "Paused" THEN sstate' = "Paused" /\ apc' = "done" /\ aout' = Silent /\ UNCHANGED aleft
              ELSE IF Len(ring) < 2 /\ ~reachedEnd THEN sstate' = st0 /\ apc' = "done" /\ aout' = Silent /\ UNCHANGED aleft
              ELSE sstate' = st0 /\ apc' = "frames" /\ aleft' = NF /\ aout' = <<>>
   /\ UNCHANGED <<ring, dpos, chunkLo, chunkHi, calls, reachedEnd, encErr, errRing, consumer, dpc, popped, cb, lock>>
@@ -187,16 +196,16 @@ AFrame ==
   /\ LET f == Frame1(ring, sstate) IN
      /\ ring' = f[1] /\ sstate' = f[2] /\ aout' = Append(aout, f[3])
      /\ aleft' = aleft - 1 /\ apc' = IF aleft = 1 THEN "done" ELSE "frames"
-  /\ UNCHANGED <<dpos, chunkLo, chunkHi, calls, reachedEnd, encErr, errRing, stopc, loaded, consumer, dpc, astate0, popped, cb, lock>>
+  /\ UNCHANGED <<dpos, chunkLo, chunkHi, calls, reachedEnd, encErr, errRing, stopc, pausec, loaded, consumer, dpc, astate0, popped, cb, lock>>
 
 AEnd ==
   /\ apc = "done" /\ act' = <<"Callback">>
   /\ cb' = cb + 1 /\ apc' = "idle"
   /\ ev' = CbEvent(sstate, aout, IF astate0 = "loaded" THEN 1 ELSE 0)
-  /\ UNCHANGED <<ring, dpos, chunkLo, chunkHi, calls, reachedEnd, encErr, errRing, sstate, stopc, loaded, consumer, dpc, aleft, aout, astate0, popped, lock>>
+  /\ UNCHANGED <<ring, dpos, chunkLo, chunkHi, calls, reachedEnd, encErr, errRing, sstate, stopc, pausec, loaded, consumer, dpc, aleft, aout, astate0, popped, lock>>
 
 INext == \/ \E r \in BOOLEAN : Play(r)
-         \/ Reject \/ Stop \/ Discard \/ Pop
+         \/ Reject \/ Stop \/ Pause \/ Discard \/ Pop
          \/ DStart \/ DBody \/ DFlag \/ DSleep \/ DExit
          \/ CallbackAtomic \/ AStart \/ AFrame \/ AEnd
 
